@@ -69,6 +69,9 @@ theorem yieldDict_inv {tk r : Tasks} {seen : List Name} (fn : Name) (d : TDict) 
     (hr : yieldDict tk fn d nf bf = .ok r) : Inv r (seen ++ yieldKeys fn (.dict d nf bf)) := by
   unfold yieldDict at hr
   split at hr
+  · simp at hr
+  unfold yieldDictPinned at hr
+  split at hr
   · rename_i nv hnv
     split at hr
     · -- attributes of the group task
